@@ -64,6 +64,7 @@ type FuncContract struct {
 	NoPanicOnly bool
 	Nilable  []string
 	Mutates  bool // may change unmodelled world state (observer results)
+	Linear     bool // products of two non-constant terms are abstracted (uninterpreted nlmul)
 	MathLemma  bool // closed arithmetic lemma (no Go function)
 	MathParams []SParam
 	Patterns   []*Clause
@@ -111,7 +112,7 @@ type ContractFile struct {
 var clauseKeywords = map[string]bool{
 	"serves": true, "requires": true, "ensures": true, "modifies": true, "nowrap": true,
 	"arith": true, "loop": true, "invariant": true, "ghost": true, "trusted": true,
-	"atcall": true, "uses": true, "pattern": true, "opaque": true, "loopmodifies": true, "nopanic": true, "nilable": true, "mutates": true, "assume-invariant": true,
+	"atcall": true, "uses": true, "pattern": true, "opaque": true, "loopmodifies": true, "nopanic": true, "nilable": true, "mutates": true, "linear": true, "assume-invariant": true,
 }
 
 func ParseContractFile(path, pkgPath string) (*ContractFile, error) {
@@ -276,6 +277,9 @@ func ParseContractText(path, pkgPath, text string) (*ContractFile, error) {
 					return nil, fmt.Errorf("%s:%d: assume-invariant outside loop", path, rl.line)
 				}
 				curLoop.Assumes = append(curLoop.Assumes, addExprClause("assume-invariant", rest, rl.line))
+			case "linear":
+				curF.Linear = true
+				contTarget = nil
 			case "mutates":
 				curF.Mutates = true
 				contTarget = nil
